@@ -387,7 +387,8 @@ def _make(cls_name, tindex, nullable):
 
 
 def _vrepr(v):
-    return repr(v)
+    r = repr(v)
+    return r if len(r) <= 40 else r[:20] + "...(%d characters)" % len(r)
 
 
 def case_parse(cls_name, tindex, nullable, v):
@@ -528,7 +529,7 @@ def bounded(ctx):
                     ctx.case([cls_name, tindex, nullable, vi], nontrivial=v is not None)
                     if fails:
                         rep.report(fails, {"kind": "parse", "cls": cls_name, "type": tindex, "nullable": nullable, "input_index": vi,
-                                           "input": repr(v)})
+                                           "input": _vrepr(v)})
     ctx.done(exhaustive=True)
 
     # ---- conversions: text form -> value
